@@ -107,9 +107,11 @@ def wrapper(rng, inner):
 
 
 def elem_c09(nm, rng):
-    k = rng.choice(["rec", "rec", "wrapped", "wrapped", "wrapped", "none", "emptyvec", "identity", "and_then", "vec2", "evveto"])
+    k = rng.choice(["rec", "rec", "wrapped", "wrapped", "wrapped", "none", "emptyvec", "identity", "and_then", "vec2", "evveto", "wrapped_none"])
     if k == "rec":
         return rec(nm, rng, sometimes=True)
+    if k == "wrapped_none":     # an absent layer behind further wrappers: Some(None), Box(None), Some(vec![]), [None], reload(None) ...
+        return wrapper(rng, rng.choice([{"e": "opt", "inner": None}, {"e": "vec", "items": []}]))
     if k == "wrapped":
         return wrapper(rng, rec(nm, rng, sometimes=True))
     if k == "none":
